@@ -25,10 +25,12 @@ def linked_ops(F, A):
     from . import objtables as T
     for p, f in F.fns.items():
         m = OPS_IMPL.match(p)
-        if not m:
+        if not m or "{closure" in p:
             continue
         op = m.group(1)
         tm = T.top_match(f)
+        if tm is None:
+            tm = T.top_match(f, body=H.beta(H.unlet(H.inline_helpers(F, H.body_of(f), max_size=600))))
         if tm is None:
             return False, "no match in %s" % p
         if op == "Neg":
@@ -47,10 +49,10 @@ def linked_ops(F, A):
                 return False, "%s lacks the (%s, %s) arm the dispatch admits" % (op, va, vb)
     # who-calls: the impls are only called from the closures VM::run hands to binary_op / bitwise_op, and the Minus arm
     for p in F.fns:
-        if not OPS_IMPL.match(p):
+        if not OPS_IMPL.match(p) or "{closure" in p:
             continue
         callers = {c for c, es in A.cg.edges.items() if p in es}
-        ok = all(c.startswith("vm::interpreter::VM::run") for c in callers)
+        ok = all(c.startswith("vm::interpreter::VM::run") or c.startswith("vm::interpreter::VM::exec_") for c in callers)
         if not ok:
             return False, "%s is also called from %s" % (p, sorted(callers)[:3])
     return True, "dispatch of VM::binary_op/bitwise_op/Minus admits only operand kinds every operator impl handles, " \
@@ -76,7 +78,12 @@ def run_audit(F, R, roots, fn_filter, label, link_ops=False, extra_roots_note=""
         for s in A.sites_of(p):
             seen_keys.add(s.key)
             A.discharge(s)
-            if s.verdict == "open" and link_ops and OPS_IMPL.match(p) and (s.cls in ("panic", "nonzero_arg")):
+            shared = False
+            if s.verdict == "open" and link_ops and not OPS_IMPL.match(p) and s.cls in ("panic", "nonzero_arg"):
+                # a dispatch helper shared by the operator impls (and called by nothing else) stands under the same linked rule
+                cl, addr = A.callers_of(p)
+                shared = bool(cl) and not addr and all(OPS_IMPL.match(q) for q, _ in cl)
+            if s.verdict == "open" and link_ops and (OPS_IMPL.match(p) or shared) and (s.cls in ("panic", "nonzero_arg")):
                 if ops_ok is None:
                     ops_ok = linked_ops(F, A)
                 if ops_ok[0]:
